@@ -9,6 +9,7 @@
 #include <opm/common/utility/Serializer.hpp>
 #include <opm/common/utility/MemPacker.hpp>
 #include <opm/common/utility/TimeService.hpp>
+#include <opm/input/eclipse/Schedule/ScheduleState.hpp>
 
 #include <algorithm>
 #include <array>
@@ -486,6 +487,102 @@ template <> struct Codec<StepLike> {
         const std::string d = Codec<D>::show(v.extra, canon);
         const std::string e = Codec<E>::show(v.byId, canon);
         return joinList({ a, b, c, d, e });
+    }
+};
+
+// ---- the REAL wrappers of ScheduleState: ptr_member<T> = class{shared_ptr<T>}, map_member<K,T> =
+//      class{unordered_map<K, shared_ptr<T>>}; pointees are made by make_shared inside the wrappers, so
+//      their addresses (printed raw in serial.gpack lines) vary from run to run ---------------------------
+struct NamedRec {
+    std::string nm; int v = 0; std::shared_ptr<double> lim;
+    const std::string& name() const { return nm; }
+    template <class S> void serializeOp(S& s) { s(nm); s(v); s(lim); }
+};
+template <> struct Codec<NamedRec> {
+    static std::string ty() { return "c(s,i4," + Codec<std::shared_ptr<double>>::ty() + ")"; }
+    static NamedRec gen(vh::Rng& r, const GenCfg& c) {
+        NamedRec x; x.nm = "W" + std::to_string(r.below(6)); x.v = Codec<int>::gen(r, c); x.lim = Codec<std::shared_ptr<double>>::gen(r, c); return x;
+    }
+    static std::string show(const NamedRec& v, bool canon) {
+        const std::string a = Codec<std::string>::show(v.nm, canon), b = Codec<int>::show(v.v, canon);
+        const std::string c = Codec<std::shared_ptr<double>>::show(v.lim, canon);
+        return joinList({ a, b, c });
+    }
+};
+inline std::string showPtr(const void* p, bool canon) {
+    if (canon) return "&" + std::to_string(labels().get(p));
+    char b[32]; std::snprintf(b, sizeof b, "%llx", static_cast<unsigned long long>(reinterpret_cast<std::uintptr_t>(p)));
+    return "&" + std::string(b);
+}
+template <class T> struct Codec<Opm::ScheduleState::ptr_member<T>> {
+    using PM = Opm::ScheduleState::ptr_member<T>;
+    static std::vector<PM>& pool() {
+        static std::vector<PM> p;
+        static bool reg = (poolClearers().push_back([] { Codec<PM>::pool().clear(); }), true);
+        (void)reg; return p;
+    }
+    static std::string ty() { return "c(P(" + Codec<T>::ty() + "))"; }
+    static PM gen(vh::Rng& r, const GenCfg& c) {       // never null: get() of an unset ptr_member is not defined
+        PM pm;
+        if (!pool().empty() && r.coin(1, 2)) pm.update(pool()[r.below(pool().size())]);   // "unchanged since an earlier step"
+        else pm.update(Codec<T>::gen(r, c));
+        pool().push_back(pm);
+        return pm;
+    }
+    static std::string show(const PM& v, bool canon) {
+        const std::string a = showPtr(&v.get(), canon);
+        return "[" + a + "(" + Codec<T>::show(v.get(), canon) + ")]";
+    }
+};
+template <class T> struct Codec<Opm::ScheduleState::map_member<std::string, T>> {
+    using MM = Opm::ScheduleState::map_member<std::string, T>;
+    static std::vector<MM>& pool() {
+        static std::vector<MM> p;
+        static bool reg = (poolClearers().push_back([] { Codec<MM>::pool().clear(); }), true);
+        (void)reg; return p;
+    }
+    static std::string ty() { return "c(N(s,P(" + Codec<T>::ty() + ")))"; }
+    static MM gen(vh::Rng& r, const GenCfg& c) {
+        MM m;
+        if (!pool().empty() && r.coin(2, 3)) m = pool()[r.below(pool().size())];            // the previous step's map: all shared
+        const size_t n = genLen(r, c);
+        for (size_t i = 0; i < n; ++i) {
+            if (!pool().empty() && r.coin(1, 3)) {
+                const MM& o = pool()[r.below(pool().size())];
+                const auto ks = o.keys();
+                if (!ks.empty()) { m.update(ks[r.below(ks.size())], o); continue; }
+            }
+            m.update(Codec<T>::gen(r, c));
+        }
+        pool().push_back(m);
+        return m;
+    }
+    static std::string show(const MM& v, bool canon) {
+        std::vector<std::pair<std::string, const std::shared_ptr<T>*>> ks;
+        for (auto it = v.begin(); it != v.end(); ++it) ks.emplace_back(Codec<std::string>::show(it->first, canon), &it->second);
+        if (canon) std::sort(ks.begin(), ks.end(), [](const auto& a, const auto& b) { return a.first < b.first; });
+        std::vector<std::string> xs;
+        for (const auto& e : ks) {
+            const std::string a = showPtr(e.second->get(), canon);
+            xs.push_back("[" + e.first + "," + a + "(" + Codec<T>::show(**e.second, canon) + ")]");
+        }
+        return "[" + joinList(xs) + "]";
+    }
+};
+// one "report step" made of the real wrappers
+struct RealStep {
+    Opm::ScheduleState::ptr_member<Rec> tuning;
+    Opm::ScheduleState::map_member<std::string, NamedRec> wells;
+    Opm::ScheduleState::ptr_member<NamedRec> field;
+    template <class S> void serializeOp(S& s) { s(tuning); s(wells); s(field); }
+};
+template <> struct Codec<RealStep> {
+    using A = Opm::ScheduleState::ptr_member<Rec>; using B = Opm::ScheduleState::map_member<std::string, NamedRec>; using C = Opm::ScheduleState::ptr_member<NamedRec>;
+    static std::string ty() { return "c(" + Codec<A>::ty() + "," + Codec<B>::ty() + "," + Codec<C>::ty() + ")"; }
+    static RealStep gen(vh::Rng& r, const GenCfg& c) { RealStep x; x.tuning = Codec<A>::gen(r, c); x.wells = Codec<B>::gen(r, c); x.field = Codec<C>::gen(r, c); return x; }
+    static std::string show(const RealStep& v, bool canon) {
+        const std::string a = Codec<A>::show(v.tuning, canon), b = Codec<B>::show(v.wells, canon), c = Codec<C>::show(v.field, canon);
+        return joinList({ a, b, c });
     }
 };
 
